@@ -395,10 +395,12 @@ fn main() {
     }
 
     // ---------------------------------------------------------------- shreds of the four shredders, repair, transactions
-    let mut sizes: Vec<usize> = vec![50, 51, 82, 1000, 32 * 1024 - 17, 32 * 1024 - 16 - 1, 32 * 1024 - 2, 32 * 1024 - 1];
+    // slice sizes: small ones, and sizes counted down from each shredder's own maximum
+    // (`usize::MAX - k` stands for `S::MAX_DATA_SIZE - k`)
+    let mut sizes: Vec<usize> = vec![50, 51, 82, 1000, usize::MAX - 17, usize::MAX - 16, usize::MAX - 1, usize::MAX];
     let extra = if args.thorough { 40 } else { 4 };
     for _ in 0..extra {
-        sizes.push(rng.range(50, 32 * 1024 - 1) as usize);
+        sizes.push(usize::MAX - rng.below(32 * 1024 - 100) as usize);
     }
     let mut some_shreds: Vec<Shred> = Vec::new();
     for &size in &sizes {
@@ -407,6 +409,7 @@ fn main() {
         cx.errs = 0;
         cx.rec.begin_case("shreds");
         fn run<S: Shredder>(cx: &mut Cx, rng: &mut Rng, size: usize, ed: &signature::SecretKey, name: &str, keep: &mut Vec<Shred>, hostile_rounds: usize) {
+            let size = if size > usize::MAX / 2 { S::MAX_DATA_SIZE.saturating_sub(usize::MAX - size).max(50) } else { size };
             if size > S::MAX_DATA_SIZE {
                 return;
             }
